@@ -4,8 +4,10 @@ The source is read from /repo's working tree on every run; nothing is copied by 
 from __future__ import annotations
 
 import hashlib
+import importlib
 import os
 import sys
+import types
 
 import numpy as _np
 
@@ -14,6 +16,7 @@ from .shim import NP
 
 REPO_SRC = os.environ.get("VERIF_REPO_SRC", "/repo/src")
 SHA = {}
+_KEEP = []
 FUNCS = set()
 
 
@@ -27,13 +30,30 @@ def path_of(modname):
 def load(modname, overrides=None, np=NP, convert_arrays=True):
     """exec the module source in a fresh namespace; returns the namespace dict."""
     path = path_of(modname)
+    try:
+        importlib.import_module(modname)  # the real module must exist in sys.modules (pydantic / relative imports look it up)
+    except Exception:
+        pass
     with open(path, "rb") as f:
         raw = f.read()
     SHA[os.path.relpath(path, REPO_SRC)] = hashlib.sha256(raw).hexdigest()
     code = compile(raw, path, "exec")
     pkg = modname.rsplit(".", 1)[0] if not path.endswith("__init__.py") else modname
-    ns = {"__name__": modname, "__package__": pkg, "__file__": path, "__builtins__": __builtins__}
-    exec(code, ns)
+    # exec inside a temporary module object installed in sys.modules: libraries that resolve
+    # names through sys.modules[cls.__module__] (pydantic forward references) must see THIS namespace
+    tmp = types.ModuleType(modname)
+    ns = tmp.__dict__
+    ns.update({"__name__": modname, "__package__": pkg, "__file__": path, "__builtins__": __builtins__})
+    real = sys.modules.get(modname)
+    sys.modules[modname] = tmp
+    try:
+        exec(code, ns)
+    finally:
+        if real is not None:
+            sys.modules[modname] = real
+        else:
+            sys.modules.pop(modname, None)
+    _KEEP.append(tmp)
     if np is not None and "np" in ns:
         ns["np"] = np
     if convert_arrays:
